@@ -51,7 +51,40 @@ def func_returns(f):
   return [s.return_type for s in f.signatures]
 
 
-def judge(src, trace, res):
+def diagnose_global(adm, consts, trace, res, name, t, sh):
+  """Observes why the value is missing: CPython-side aliasing, pytype-side invisible binding."""
+  from vf.oracle import admit, c01_diag
+  out = {}
+  try:
+    path, ft, fs, parent = admit.find_failure(adm, t, sh)
+    out["path"] = list(path)
+    out["leaf"] = brief(fs)
+    al = c01_diag.alias_signature(trace, adm, consts, parent, fs)
+    if al:
+      out["alias"] = al
+    defs = c01_diag.CAPTURE.get("defs")
+    if res.ctx is not None and defs is not None and name in defs:
+      out["view"] = c01_diag.view_signature(res.ctx, defs[name], path, fs)
+  except Exception as e:  # pylint: disable=broad-except
+    out["error"] = f"{type(e).__name__}: {e}"
+  return out
+
+
+def mechanism(v, dg):
+  """Mechanism key of a (minimised) violation from the observed diagnosis."""
+  from vf.oracle import c01_diag
+  if dg:
+    if dg.get("alias"):
+      return c01_diag.K_ALIAS
+    vw = dg.get("view") or {}
+    if vw.get("sibling"):
+      return c01_diag.K_VIEW
+    why = vw.get("why") or dg.get("error") or "no diagnosis"
+    return f"unclassified: {v['kind']} at path {'/'.join(dg.get('path', [])) or 'top'}: {why}"
+  return f"unclassified: {v['kind']} (no diagnosis available for this item kind)"
+
+
+def judge(src, trace, res, diag=None):
   """Returns (items, violations).  items: list of (kind, name, nontrivial)."""
   from pytype.pytd import pytd
   from vf.oracle import admit
@@ -72,6 +105,8 @@ def judge(src, trace, res):
       items.append(("global", name, not is_any(t)))
       if not ok:
         viol.append({"kind": "global", "name": name, "declared": pytd_str(t), "value": brief(sh)})
+        if diag is not None:
+          diag[name] = diagnose_global(adm, consts, trace, res, name, t, sh)
     elif name in adm.classes:
       ok = sh.get("k") == "class" and name in sh.get("mro", ())
       items.append(("class", name, False))
@@ -161,25 +196,30 @@ def _alarm(signum, frame):
   raise Timeout()
 
 
-def run_one(src, limit=60):
+def run_one(src, limit=60, diagnose=False):
   """Returns dict: status in {'raised','analysis-error','ok'}, items, viol."""
   from vf import pt
-  from vf.oracle import shapes
+  from vf.oracle import shapes, c01_diag
+  c01_diag.install()
   tr = shapes.trace_program(src)
   if not tr["ok"]:
     return {"status": "raised", "error": tr["error"]}
   signal.signal(signal.SIGALRM, _alarm)
   signal.alarm(limit)
   try:
-    res = pt.analyze(src)
+    res = pt.analyze(src, keep_ctx=diagnose)
   except Timeout:
     return {"status": "timeout"}
   except Exception as e:  # pylint: disable=broad-except
     return {"status": "analysis-error", "error": f"{type(e).__name__}: {str(e)[:200]}"}
   finally:
     signal.alarm(0)
-  items, viol = judge(src, tr, res)
-  return {"status": "ok", "items": items, "viol": viol, "errors": res.errors, "pyi": res.pyi}
+  diag = {} if diagnose else None
+  items, viol = judge(src, tr, res, diag)
+  if diagnose and res.ctx is not None:
+    res.ctx.program = None
+  return {"status": "ok", "items": items, "viol": viol, "errors": res.errors, "pyi": res.pyi,
+          "diag": diag, "monitor_calls": c01_diag.CAPTURE.get("n", 0)}
 
 
 # ---------------------------------------------------------------------------
@@ -225,95 +265,15 @@ def minimise(src, target, budget=500):
 
 
 def classify(src, v):
-  """Names the mechanism of a minimised witness; 'unclassified: ...' if no predicate matches."""
-  try:
-    tree = pyast.parse(src)
-  except SyntaxError:
-    return "unclassified: witness does not parse"
-  feats = features(tree, v)
-  for name, pred in PREDICATES:
-    if pred(feats, v):
-      return name
-  return "unclassified: " + v["kind"] + " " + " ".join(sorted(k for k, val in feats.items() if val is True))
-
-
-def features(tree, v):
-  f = {}
-  funcs = {n.name: n for n in pyast.walk(tree) if isinstance(n, (pyast.FunctionDef,))}
-  tname = v["name"].split(".")[-1]
-  # the function whose return is mistyped, or functions called in the assignment of the mistyped global
-  target_funcs = []
-  if v["kind"] == "return" and tname in funcs:
-    target_funcs.append(funcs[tname])
-  if v["kind"] == "global":
-    for n in tree.body:
-      if isinstance(n, pyast.Assign) and any(isinstance(t, pyast.Name) and t.id == v["name"] for t in n.targets):
-        for c in pyast.walk(n.value):
-          if isinstance(c, pyast.Call) and isinstance(c.func, pyast.Name) and c.func.id in funcs:
-            target_funcs.append(funcs[c.func.id])
-  f["n_target_funcs"] = len(target_funcs)
-
-  def closure_over_tested_param(fn):
-    params = {a.arg for a in fn.args.args + fn.args.kwonlyargs}
-    tested = set()
-    for n in pyast.walk(fn):
-      if isinstance(n, pyast.Call) and isinstance(n.func, pyast.Name) and n.func.id == "isinstance" and n.args \
-          and isinstance(n.args[0], pyast.Name):
-        tested.add(n.args[0].id)
-      if isinstance(n, pyast.Compare) and isinstance(n.left, pyast.Name) and any(
-          isinstance(o, (pyast.Is, pyast.IsNot)) for o in n.ops):
-        tested.add(n.left.id)
-    for n in pyast.walk(fn):
-      if n is fn:
-        continue
-      if isinstance(n, (pyast.Lambda, pyast.FunctionDef)):
-        inner_params = {a.arg for a in n.args.args}
-        for m in pyast.walk(n.body if isinstance(n, pyast.Lambda) else n):
-          if isinstance(m, pyast.Name) and m.id in (params & tested) and m.id not in inner_params:
-            return True
-    return False
-
-  f["closure_over_tested_param"] = any(closure_over_tested_param(fn) for fn in target_funcs)
-  f["has_boolop_value"] = any(isinstance(n, pyast.BoolOp) for n in pyast.walk(tree))
-  f["has_try"] = any(isinstance(n, pyast.Try) for n in pyast.walk(tree))
-  f["has_ifexp"] = any(isinstance(n, pyast.IfExp) for n in pyast.walk(tree))
-  f["has_call_of_user_func"] = any(
-      isinstance(n, pyast.Call) and isinstance(n.func, pyast.Name) and n.func.id in funcs
-      for n in pyast.walk(tree))
-  f["has_lambda"] = any(isinstance(n, pyast.Lambda) for n in pyast.walk(tree))
-  f["has_class"] = any(isinstance(n, pyast.ClassDef) for n in pyast.walk(tree))
-  f["has_augassign"] = any(isinstance(n, pyast.AugAssign) for n in pyast.walk(tree))
-  f["has_attr_store"] = any(isinstance(n, pyast.Attribute) and isinstance(n.ctx, pyast.Store)
-                            for n in pyast.walk(tree))
-  f["has_mutation_call"] = any(
-      isinstance(n, pyast.Call) and isinstance(n.func, pyast.Attribute) and
-      n.func.attr in ("append", "update", "add", "extend", "insert", "setdefault", "pop")
-      for n in pyast.walk(tree))
-  f["has_subscript_store"] = any(isinstance(n, pyast.Subscript) and isinstance(n.ctx, pyast.Store)
-                                 for n in pyast.walk(tree))
-  f["has_getattr"] = any(isinstance(n, pyast.Call) and isinstance(n.func, pyast.Name) and n.func.id == "getattr"
-                         for n in pyast.walk(tree))
-  f["has_isinstance"] = any(isinstance(n, pyast.Call) and isinstance(n.func, pyast.Name) and
-                            n.func.id == "isinstance" for n in pyast.walk(tree))
-  f["has_comprehension"] = any(isinstance(n, (pyast.ListComp, pyast.DictComp, pyast.SetComp))
-                               for n in pyast.walk(tree))
-  return f
-
-
-PREDICATES = []   # filled from known mechanisms below (name, predicate(features, violation))
-
-
-def _pred(name):
-  def deco(fn):
-    PREDICATES.append((name, fn))
-    return fn
-  return deco
-
-
-@_pred("narrowed parameter read through a closure: nested function/lambda reads a parameter of the enclosing "
-       "function that is tested by isinstance/is None on the path")
-def _p_closure(f, v):
-  return f["closure_over_tested_param"]
+  """Re-runs the minimised witness with diagnosis on and names the mechanism."""
+  r = run_one(src, limit=60, diagnose=True)
+  if r["status"] != "ok":
+    return f"unclassified: minimised witness no longer analysable ({r['status']})", None
+  for w in r["viol"]:
+    if same_item(w, v):
+      dg = (r["diag"] or {}).get(v["name"]) if v["kind"] == "global" else None
+      return mechanism(w, dg), dg
+  return "unclassified: minimised witness no longer violates", None
 
 
 # ---------------------------------------------------------------------------
@@ -361,9 +321,9 @@ def child(arg):
         msrc, mv, tries = minimise(src, v)
       else:
         msrc, mv, tries = src, v, 0
-      key = classify(msrc, mv)
-      out["violations"].append({"key": key, "item": mv, "minimised": msrc, "original": src,
-                                "program_seed": pseed, "minimiser_runs": tries,
+      key, dg = classify(msrc, mv)
+      out["violations"].append({"key": key, "item": mv, "diagnosis": dg, "minimised": msrc,
+                                "original": src, "program_seed": pseed, "minimiser_runs": tries,
                                 "all_items_violated": r["viol"][:5]})
   return out
 
@@ -429,7 +389,7 @@ def replay(rec):
   print(r.get("viol"), r.get("status"))
   if r["status"] == "ok" and r["viol"]:
     known = common.load_known(PID)
-    keys = {classify(src, v) for v in r["viol"]}
+    keys = {classify(src, v)[0] for v in r["viol"]}
     if keys - set(known):
       print(f"VIOLATION property={PID} replay=<replayed>")
       return 1
